@@ -52,6 +52,8 @@ def run(ck):
                 out_.append(e)
                 continue
             c_ = e.get("callee") or ""
+            if e.get("inlined"):
+                continue        # the helper's body follows among evs (flattened function)
             if c_.startswith(P) and not e.get("virt") and c_ not in (REQ_RESOLVE, REQ_REJECT):
                 for h_ in prog.resolve_call(e):
                     if not h_.blocks or h_.cls:
@@ -227,8 +229,10 @@ def run(ck):
             w = walk_calls(evs)
             badw = [e for e in w if e.get("callee") == REQ_RESOLVE]
             var = hb.label.get("var")
+            def src_(a_):
+                return a_["moved"] if isinstance(a_.get("moved"), dict) else a_
             stores = [e for e in evs if e["k"] == "call" and e.get("op") == "=" and _field(e.get("recv"), "Core::exc")
-                      and ((e["args"][0].get("f") or "").endswith("InternalRethrow::exc") and e["args"][0].get("b") == var)]
+                      and ((src_(e["args"][0]).get("f") or "").endswith("InternalRethrow::exc") and src_(e["args"][0]).get("b") == var)]
             states = [e for e in evs if e["k"] == "call" and e.get("op") == "=" and _field(e.get("recv"), "Core::state")
                       and e["args"][0].get("const") == "e:Pistache::Async::State::Rejected"]
             dom = cfg.dominators(f, hb.id)
